@@ -316,6 +316,38 @@ def r15d(ctx, rep, rule="R15d"):
     rep.floor(rule, "optional index parameters of string range helpers", n, 2)
 
 
+ASCII_CASE = ("eq_ignore_ascii_case", "to_ascii_lowercase", "to_ascii_uppercase", "make_ascii_lowercase", "make_ascii_uppercase")
+
+
+def r15h(ctx, rep, rule="R15h"):
+    facts = ctx["facts"]
+    rep.rule(rule, "case folding covers all of Unicode: in the character and string procedures an ASCII-only case operation "
+             "(eq_ignore_ascii_case, to_ascii_lowercase, to_ascii_uppercase) is used only on a value already tested with "
+             "is_ascii (a fast path); a case-insensitive predicate that folds with it alone compares non-ASCII letters "
+             "case-sensitively, disagreeing with char-foldcase and with its string-ci sibling.")
+    n = 0
+    for p, f in sorted(facts.fns.items()):
+        if not p.startswith((STRMOD, "marwood::vm::builtin::char::")):
+            continue
+        for bb, t in f.calls():
+            c = callee(t) or ""
+            if not c.endswith(ASCII_CASE):
+                continue
+            n += 1
+            guarded = False
+            rts = roots(f, t["args"][0]) if t["args"] else set()
+            for b2, t2 in f.calls():
+                if (callee(t2) or "").endswith("::is_ascii") and f.dominates(b2, bb) and b2 != bb and t2["args"] and roots(f, t2["args"][0]) & rts:
+                    guarded = True
+            k = len([1 for b3, t3 in f.calls() if (callee(t3) or "").endswith(ASCII_CASE) and b3 <= bb])
+            key = "%s|%s|%s#%d" % (rule, f.short.replace("vm::builtin::", ""), c.rsplit("::", 1)[-1], k)
+            (rep.ok if guarded else rep.fail)(rule, key, "%s uses %s on a value it has tested with is_ascii" % (f.short, c.rsplit("::", 1)[-1]) if guarded else
+                                              "%s folds case with %s without an is_ascii test: letters outside ASCII are compared "
+                                              "case-sensitively (e.g. (char-ci=? #\\Λ #\\λ) is #f although char-foldcase maps both to λ)" % (
+                                                  f.short, c.rsplit("::", 1)[-1]), [t["loc"]])
+    rep.floor(rule, "ASCII-only case operations in the character and string procedures", n, 1)
+
+
 def r15g(ctx, rep, rule="R15g"):
     fresh_results(ctx, rep, rule, "String", "marwood::vm::vcell::VCell::string", "string", "string-set!", 1, 8)
 
@@ -374,6 +406,7 @@ def run(ctx, rep):
     r15c(ctx, rep)
     r15d(ctx, rep)
     r15g(ctx, rep)
+    r15h(ctx, rep)
     from . import numeric
     numeric.r_fold_adjacent(ctx, rep, "R15f", [STRMOD, "marwood::vm::builtin::char::"], 2)
     from . import C14
